@@ -360,6 +360,9 @@ def d_minimised_function(ctx, fits, rule='C08-D6'):
 
 
 def run(ctx):
+    from . import C19 as _C19
+    ctx.rule('C08-D9' if False else 'C08-D19', 'prior strings value(error) are read exactly (shared evaluation with C19-D2)')
+    ctx.guarded('C08-D19', 'fits.py:_extract_val_and_dval', _C19.d2_prior, ctx, 'C08-D19')
     ctx.rule('C08-D1', 'layout agreement of the two implicit-function steps')
     ctx.rule('C08-D2', 'sign and Hessian')
     ctx.rule('C08-D3', 'chi-square definitions agree (x-residual term present)')
